@@ -254,8 +254,9 @@ pub fn exec_op(ctx: &Arc<Ctx>, op: &Op, caller: usize, nested: bool, local: &mut
         Op::AwaitUnwind => {
             // every started panic has been caught either by a caller's top level or at the top of a pool thread
             loop {
+                let started = ctx.panics_started.load(SeqCst);       // read ONCE, and before the completions
                 let done = ctx.panics_caught.load(SeqCst) + (desync::verif::thread::PANICKED_THREADS.load(SeqCst) - ctx.panic_base);
-                if done >= ctx.panics_started.load(SeqCst) && ctx.panics_started.load(SeqCst) > 0 { break; }
+                if started > 0 && done >= started { break; }
                 rt::thread::yield_now();
             }
             return;
@@ -553,7 +554,7 @@ fn expect_panic(ctx: &Arc<Ctx>, q: usize, _caller: usize) {
     ];
     for (name, f) in attempts {
         let res = catch_unwind(AssertUnwindSafe(f));
-        if res.is_ok() { ctx.error("C15", format!("{} on the panicked object {} returned normally instead of panicking", name, q)); }
+        if res.is_ok() { ctx.error("C15", format!("{} on the panicked object {} returned normally instead of panicking [started {} caught {} threads {}]", name, q, ctx.panics_started.load(SeqCst), ctx.panics_caught.load(SeqCst), desync::verif::thread::PANICKED_THREADS.load(SeqCst) - ctx.panic_base)); }
         if ran.load(SeqCst) { ctx.error("C15", format!("{} on the panicked object {} ran its closure", name, q)); }
     }
 }
